@@ -188,6 +188,71 @@ func buildFxModelD(op string, fx fixture, weightsFrom int, defaults bool) *fxMod
 	return m
 }
 
+// two nodes of one operator type with different attributes in one graph (both orders): what one node's
+// Init / Apply leaves behind may not change what the other computes -- on this Run, a later Run, or
+// another Model
+func pairFxModels() []*fxModel {
+	var ms []*fxModel
+	ais := func(n string, v ...int64) *onnx.AttributeProto {
+		return &onnx.AttributeProto{Name: n, Ints: v, Type: onnx.AttributeProto_INTS}
+	}
+	acts := &onnx.AttributeProto{Name: "activations", Strings: [][]byte{[]byte("tanh"), []byte("sigmoid"), []byte("relu")}, Type: onnx.AttributeProto_STRINGS}
+	type spec struct {
+		name   string
+		nodes  []realNode
+		inits  map[string]tensor.Tensor
+		inputs map[string]func() tensor.Tensor
+		ranks  map[string]int
+		outs   []string
+	}
+	specs := []spec{
+		{name: "LSTM default + LSTM explicit activations",
+			nodes: []realNode{{op: "LSTM", attrs: []*onnx.AttributeProto{aI("hidden_size", 2)}, in: []string{"x", "w", "r"}, out: []string{"Ya", "Ha", "Ca"}},
+				{op: "LSTM", attrs: []*onnx.AttributeProto{aI("hidden_size", 2), acts}, in: []string{"x", "w", "r"}, out: []string{"Yb", "Hb", "Cb"}}},
+			inits:  map[string]tensor.Tensor{"w": fxF32(1, 8, 3), "r": fxF32(1, 8, 2)},
+			inputs: map[string]func() tensor.Tensor{"x": func() tensor.Tensor { return fxF32(2, 2, 3) }}, ranks: map[string]int{"x": 3},
+			outs: []string{"Ya", "Ha", "Ca", "Yb", "Hb", "Cb"}},
+		{name: "GRU default + GRU explicit activations",
+			nodes: []realNode{{op: "GRU", attrs: []*onnx.AttributeProto{aI("hidden_size", 2)}, in: []string{"x", "w", "r"}, out: []string{"Ya", "Ha"}},
+				{op: "GRU", attrs: []*onnx.AttributeProto{aI("hidden_size", 2), {Name: "activations", Strings: [][]byte{[]byte("tanh"), []byte("relu")}, Type: onnx.AttributeProto_STRINGS}}, in: []string{"x", "w", "r"}, out: []string{"Yb", "Hb"}}},
+			inits:  map[string]tensor.Tensor{"w": fxF32(1, 6, 3), "r": fxF32(1, 6, 2)},
+			inputs: map[string]func() tensor.Tensor{"x": func() tensor.Tensor { return fxF32(2, 2, 3) }}, ranks: map[string]int{"x": 3},
+			outs: []string{"Ya", "Ha", "Yb", "Hb"}},
+		{name: "Conv 3x3 dilated by 2 + Conv 5x5",
+			nodes: []realNode{{op: "Conv", attrs: []*onnx.AttributeProto{ais("dilations", 2, 2)}, in: []string{"x", "k3"}, out: []string{"y0"}},
+				{op: "Conv", attrs: []*onnx.AttributeProto{ais("dilations", 1, 1)}, in: []string{"x", "k5"}, out: []string{"y1"}}},
+			inits:  map[string]tensor.Tensor{"k3": fxPos32(2, 2, 3, 3), "k5": fxF32(2, 2, 5, 5)},
+			inputs: map[string]func() tensor.Tensor{"x": func() tensor.Tensor { return fxF32(1, 2, 7, 7) }}, ranks: map[string]int{"x": 4},
+			outs: []string{"y0", "y1"}},
+	}
+	for _, sp := range specs {
+		for order := 0; order < 2; order++ {
+			sp := sp
+			nodes := append([]realNode{}, sp.nodes...)
+			if order == 1 {
+				nodes[0], nodes[1] = nodes[1], nodes[0]
+			}
+			var inNames []string
+			for n := range sp.inputs {
+				inNames = append(inNames, n)
+			}
+			sort.Strings(inNames)
+			m := &fxModel{op: fmt.Sprintf("%s (order %d)", sp.name, order), inNames: inNames, outNames: sp.outs}
+			m.bytes = realModel(inNames, sp.ranks, sp.inits, nodes, sp.outs)
+			m.mkInputs = func() gonnx.Tensors {
+				t := gonnx.Tensors{}
+				for n, f := range sp.inputs {
+					t[n] = f()
+				}
+				return t
+			}
+			m.mkOverrides = func() gonnx.Tensors { return gonnx.Tensors{} }
+			ms = append(ms, m)
+		}
+	}
+	return ms
+}
+
 func outSnap(out gonnx.Tensors, err error, names []string) string {
 	if err != nil {
 		return "error"
@@ -257,7 +322,7 @@ func genC02(dir, tier string, seed int64) {
 	meta.GoOnly = append(meta.GoOnly, effectsAll)
 
 	// ---- stream 2: histories of Runs on one Model vs a fresh Model ----
-	hist := goOnlyResult{Stream: "C02_histories", Rule: "single-node models from every fixture, and the same node reading every tensor through an identity-like node (a one-input Concat or an Expand to the tensor's own shape) (trailing inputs as initializers: weights, biases, initial states, axes, shapes; each also in the variant where those initializers are declared graph inputs, i.e. defaults that some calls of the history override with other values and other calls leave out) + the loadable sample models: histories of 2..6 Runs on ONE Model (same input objects re-used, the same objects refilled in place with other contents -- inputs and overriding weights alike --, fresh copies, interleaved failing calls: missing input, wrong rank); every Run compared bit for bit with the same call on a freshly loaded Model; caller tensors and Model parameters (through the verif hook) snapshotted before/after every Run", Violations: []string{}}
+	hist := goOnlyResult{Stream: "C02_histories", Rule: "single-node models from every fixture, and the same node reading every tensor through an identity-like node (a one-input Concat or an Expand to the tensor's own shape) (trailing inputs as initializers: weights, biases, initial states, axes, shapes; each also in the variant where those initializers are declared graph inputs, i.e. defaults that some calls of the history override with other values and other calls leave out) + two-node models (LSTM / GRU with default and with explicit activations, two Conv nodes whose dilated kernels have one shape; both orders) + the loadable sample models: histories of 2..6 Runs on ONE Model (same input objects re-used, the same objects refilled in place with other contents -- inputs and overriding weights alike --, fresh copies, interleaved failing calls: missing input, wrong rank); every Run compared bit for bit with the same call on a freshly loaded Model AND with the first result ever observed for these input values; caller tensors and Model parameters (through the verif hook) snapshotted before/after every Run", Violations: []string{}}
 	nHist := 2
 	if tier == "thorough" {
 		nHist = 40
@@ -294,7 +359,12 @@ func genC02(dir, tier string, seed int64) {
 			}
 		}
 	}
-	for _, fm := range models {
+	models = append(models, pairFxModels()...)
+	// the first result ever observed for a model and an input set (by value): every later Run with the same
+	// values -- on this Model or a freshly loaded one -- must give it again (state kept at package level
+	// corrupts the "fresh" Model of the comparison just as well)
+	firstSeen := map[string]string{}
+	for mi, fm := range models {
 		for h := 0; h < nHist; h++ {
 			hist.N++
 			func() {
@@ -413,6 +483,18 @@ func genC02(dir, tier string, seed int64) {
 					}
 					fout, ferr, _ := runRec(fresh, fin)
 					a, b := outSnap(out, err, fm.outNames), outSnap(fout, ferr, fm.outNames)
+					var ks []string
+					for k := range in {
+						ks = append(ks, k+"="+before[k])
+					}
+					sort.Strings(ks)
+					key := fmt.Sprintf("%d|%s", mi, strings.Join(ks, "|"))
+					if first, ok := firstSeen[key]; !ok {
+						firstSeen[key] = a
+					} else if first != a {
+						hist.Violations = append(hist.Violations, fmt.Sprintf("%s: Run %d of a history gives another result than the FIRST Run ever made with these input values on this model: %.300s  vs first  %.300s", fm.op, s, a, first))
+						return
+					}
 					if a != b {
 						hist.Violations = append(hist.Violations, fmt.Sprintf("%s: Run %d of a history differs from a fresh Model on the same inputs: %s  vs fresh  %s", fm.op, s, a, b))
 						return
